@@ -267,6 +267,9 @@ C05_PROGRAMS = [
     "raise SystemError('top-level failure')\n",
     "nan = 1e999 - 1e999\nprint(nan != nan, (1e999, -1e999))\n",
     "fs = (lambda x: x - 1, lambda x: x + 1, lambda x: x * 2)\nprint([f(3) for f in fs])\n",
+    "import math\nz = (1+0j, -(-1+0j), 1e999j, -(0.0-2j))\nprint([(math.copysign(1, c.real), math.copysign(1, c.imag)) for c in z], z)\n",
+    "def run(n):\n    t = 0\n    for i in range(n):\n        if i % 3 == 0:\n            continue\n" + "".join("        t += i\n" for _ in range(120)) + "    return t\nprint(run(7))\n",
+    "def outer(y):\n    def f(x):\n        if 0:\n            def g():\n                return x\n        return y + x\n    return f\nprint(outer(3)(4))\n",
     "r = [a for a in range(2)] + [a * 2 for a in range(2)]\nprint(r, [(lambda: 1)(), (lambda: 2)()])\n",
     "a = (0.0, -0.0, (1, 2), (1.0, 2.0), (True, False), (1, 0))\nprint(a, [type(x).__name__ for t in a[2:] for x in t])\n",
 ]
@@ -476,6 +479,23 @@ def canon(j):
     return j
 
 
+def doc_tags(doc):
+    """input-class tags of a JSON document, computed from the document alone"""
+    tags = set()
+
+    def walk(j, in_constant):
+        if isinstance(j, dict):
+            if set(j) == {"string"} and not in_constant:
+                tags.add("lone-surrogate-string-outside-constants")
+            for k, v in j.items():
+                walk(v, in_constant or k == "constant" and not (isinstance(v, dict) and "filename" in v))
+        elif isinstance(j, list):
+            for v in j:
+                walk(v, in_constant)
+    walk(doc, False)
+    return sorted(tags)
+
+
 def c15_read(path, out_path):
     """load every document, re-serialize, normalize; report per id the canonical dumps"""
     res = {"n": 0, "failures": []}
@@ -489,12 +509,12 @@ def c15_read(path, out_path):
                 norm = x.normalize().to_json_data()
                 a, b = json.dumps(canon(again), sort_keys=True), json.dumps(canon(rec["doc"]), sort_keys=True)
                 if a != b:
-                    res["failures"].append({"id": rec["id"], "msg": "document re-serializes differently on this host"})
+                    res["failures"].append({"id": rec["id"], "msg": "document re-serializes differently on this host", "tags": doc_tags(rec["doc"])})
                 nb = json.dumps(canon(rec["normalized"]), sort_keys=True)
                 na = json.dumps(canon(norm), sort_keys=True)
                 if na != nb:
-                    res["failures"].append({"id": rec["id"], "msg": "normalize gives a different result on this host than on the producer"})
+                    res["failures"].append({"id": rec["id"], "msg": "normalize gives a different result on this host than on the producer", "tags": doc_tags(rec["doc"])})
                 out.write(json.dumps({"id": rec["id"], "norm": na}) + "\n")
             except Exception as e:
-                res["failures"].append({"id": rec["id"], "msg": "load raised %s: %s" % (type(e).__name__, str(e)[:160])})
+                res["failures"].append({"id": rec["id"], "msg": "load raised %s: %s" % (type(e).__name__, str(e)[:160]), "tags": doc_tags(rec["doc"])})
     return res
